@@ -68,6 +68,30 @@ def main(prop):
             txt += ': ' + json.dumps(j['event'])[:300]
         violations.append(({'kind': 'boxcar-trace', 'property': prop, 'clauses': clauses, 'run': j['run'], 'scenario': j.get('scenario'),
                             'seed': seed(), 'tier': tier(), 'trace': run_excerpt(f, j['run'])}, txt))
+    extra_cov = {}
+    if prop in ('C09', 'C11'):
+        # the same property at the level of the whole matcher (worker pool, snapshot, restart, handles)
+        import nuc_props
+        ngen, nfiles = nuc_props.explore(os.path.join(wd, 'nuc'), 8)
+        nspec = 'MemModel.tla' if prop == 'C09' else 'NucleoTrace.tla'
+        ntot, nstates, ntrans, njudged = run_trace_spec(nspec, nfiles, thorough)
+        if ntot.get('runs') != ngen['runs']:
+            die_tool('nucleo run count mismatch: harness %s, TLC %s' % (ngen['runs'], ntot.get('runs')))
+        for f, j in njudged:
+            clauses = [c for c in j['viol'] if prop == 'C09' or c in nuc_props.CLAUSES['C11']]
+            key = ('n', j['run'], tuple(sorted(clauses)))
+            if not clauses or key in seen_runs:
+                continue
+            seen_runs.add(key)
+            txt = '%s in nucleo run %d (scenario %s) at event %s' % (','.join(sorted(clauses)), j['run'], j.get('scenario'), j.get('seq'))
+            if 'event' in j:
+                txt += ': ' + json.dumps(j['event'])[:300]
+            violations.append(({'kind': 'nucleo-trace', 'property': prop, 'clauses': clauses, 'run': j['run'], 'scenario': j.get('scenario'),
+                                'seed': seed(), 'tier': tier(), 'trace': nuc_props.excerpt(f, j['run'])}, txt))
+        states += nstates; trans += ntrans
+        extra_cov = {'nucleo_level_schedules': ngen['runs'], 'nucleo_level_events_validated': ntot.get('events', 0),
+                     'nucleo_level_scenarios': ngen['scenarios']}
+        tot['runs'] = tot.get('runs', 0) + ntot.get('runs', 0)
     sample = run_excerpt(files[0], json.loads(open(files[0]).readline())['run'], 60)
     cov = {
         'states': states, 'transitions': trans,
@@ -79,6 +103,7 @@ def main(prop):
         'samples': [sample], 'exhaustive': False,
     }
     cov.update({k: v for k, v in tot.items() if k not in ('runs', 'events', 'fails')})
+    cov.update(extra_cov)
     finish(prop, 'model_checking', cov, violations, known, t0,
            assumptions=['the scheduler serialises instrumented operations; code between them runs freely',
                         'values are unique per run, so an observed (index, value) pair identifies its writer',
